@@ -1,9 +1,146 @@
 import PeptVerif.Lemmas.Reorder
+/-!
+# C07 — digested peptides keep their modifications, their mass and their place
+
+Property theorems only. Left-hand sides are the models of `ProFormaAnnotation.slice` and of
+`digestion._return_digested_sequences` (`Model/Reorder.lean`, tied to /repo by the correspondence run of `./check C07`).
+`residues a : List (Char × List Mod)` is the peptide as a list of residues with their own modifications.
+
+Not modelled here (black boxes of the oracle in harness/props/c07.py): serialisation / parsing (C01), the regular-expression
+scan of the subsequence search (C16), the concrete mass tables (C02). For the mass clause the per-residue weight `w`, the
+per-modification weight `m`, the contribution `t` of terminal static rules and the water `h` are arbitrary.
+-/
 namespace Pept.Reorder.C07
 
-/-- unmodified fast path of the dispatcher = general path -/
+/-! ## 1. slice semantics of a piece -/
+
+/-- the piece for span `(s,e)` has exactly the residues `s..e-1`, each with its own modifications -/
+theorem slice_residues (a : Annotation) (s e : Nat) (hs : s ≤ e) (he : e ≤ a.seq.length) :
+    residues (slice a s e) = ((residues a).drop s).take (e - s) :=
+  residues_slice a s e hs he
+
+/-- N-terminal mods only if the piece starts at 0 -/
+theorem slice_nterm (a : Annotation) (s e : Int) :
+    (slice a s e).nterm = if s > 0 then none else a.nterm := (slice_fields a s e).1
+
+/-- C-terminal mods only if the piece ends at the end -/
+theorem slice_cterm (a : Annotation) (s e : Int) :
+    (slice a s e).cterm = if e < (a.seq.length : Int) then none else a.cterm := (slice_fields a s e).2.1
+
+/-- the global isotope and static rules are carried by every piece (and, on the code as it is, so are labile and
+unknown-position modifications, charge and adducts: the source of `mass_conservation_full_false_on_current_code`) -/
+theorem slice_globals (a : Annotation) (s e : Int) :
+    (slice a s e).isotope = a.isotope ∧ (slice a s e).static = a.static ∧ (slice a s e).labile = a.labile ∧
+    (slice a s e).unknown = a.unknown ∧ (slice a s e).charge = a.charge ∧ (slice a s e).adducts = a.adducts :=
+  (slice_fields a s e).2.2
+
+/-! ## 2. fast path = general path, return types -/
+
+/-- unmodified fast path of `slice` -/
 theorem fastpath_eq (a : Annotation) (s e : Int) (h : hasMods a = false) :
     slice a s e = plain (pySlice a.seq s e) := by
   simp [slice, h]
+
+/-- both branches of `has_mods` in `slice` are the one general expression -/
+theorem slice_general (a : Annotation) (s e : Int) : slice a s e = sliceGeneral a s e :=
+  slice_eq_general a s e
+
+/-- the dispatcher's own fast path (`create_annotation(sequence[s:e])`) returns what the general path returns: every
+return type describes `slice a s e` for each span -/
+theorem dispatcher_eq_slices (a : Annotation) (spans : List Spans.Span) :
+    digestPieces a spans = spans.map fun sp => slice a sp.1 sp.2.1 := by
+  unfold digestPieces
+  cases h : hasMods a
+  · simp only [Bool.not_false, if_true]
+    apply List.map_congr_left
+    intro sp _
+    rw [fastpath_eq a _ _ h]
+  · simp
+
+/-! ## 3. found again at offset `s`
+
+`find_indices` accepts offset `s` when `is_subsequence(piece, protein.slice(s, s+len))`, which slices that candidate once
+more over its whole length and compares it with the piece. That second slice returns the piece itself: -/
+
+/-- relocation, as far as it can be stated without the search model: the candidate the search builds at offset `s`
+is the piece, and re-slicing it over its full length (what `is_subsequence` compares with the piece) changes nothing -/
+theorem relocate_at_offset (a : Annotation) (s e : Nat) (hs : s < e) (he : e ≤ a.seq.length) :
+    slice (slice a (s : Int) (e : Int)) (0 : Nat) ((e - s : Nat) : Int) = slice a (s : Int) (e : Int) := by
+  have := slice_slice' a s e 0 (e - s) (by omega) he (by omega) (by omega) (Or.inl (by omega))
+  rw [this]
+  congr 1 <;> omega
+
+/-! ## 4. mass over the pieces of a partition -/
+
+/-- for ANY additive per-residue weight the consecutive pieces `[0,e₁), [e₁,e₂), …, [e_{k-1}, n)` sum to the whole -/
+theorem partition_weight (w : Char × List Mod → Rat) (a : Annotation) (ends : List Nat)
+    (hinc : Increasing 0 ends a.seq.length) (hlast : lastOf 0 ends = a.seq.length) :
+    ((piecesFrom a 0 ends).map fun p => weight w (residues p)).sum = weight w (residues a) := by
+  rw [pieces_weight w a 0 ends hinc, hlast]
+  simp [← residues_length a]
+
+/-- exact accounting on the code as it is (no interval modifications): the abstract masses of the `k` non-empty consecutive
+pieces of a partition sum to the mass of the whole plus `k-1` times (one water + everything `slice` copies into every
+piece: labile mods, unknown-position mods, terminal static rules) -/
+theorem mass_partition_exact (w : Char × List Mod → Rat) (m : Mod → Rat) (t : Option (List Mod) → Rat) (h : Rat)
+    (a : Annotation) (ends : List Nat) (hne : ends ≠ [])
+    (hinc : Increasing 0 ends a.seq.length) (hlast : lastOf 0 ends = a.seq.length) (hiv : a.intervals = none) :
+    ((piecesFrom a 0 ends).map (amass w m t h)).sum =
+      amass w m t h a + times (ends.length - 1) (h + inherited m t a) := by
+  rw [pieces_amass w m t h a 0 ends hinc hiv, hlast]
+  obtain ⟨e, rest, rfl⟩ := List.exists_cons_of_ne_nil hne
+  simp only [ne_eq, reduceCtorEq, not_false_eq_true, and_self, if_true, List.length_cons, Nat.add_sub_cancel, times,
+    Nat.sub_zero]
+  have : ((residues a).drop 0).take a.seq.length = residues a := by simp [← residues_length a]
+  rw [this]
+  unfold amass inherited
+  simp only [hiv, intervalSum]
+  grind
+
+/-- FULL STATEMENT (false on the current code, see below):
+    `Σ mass(piece) = mass(protein) + (k-1)·water` for every modified protein (labile mods are in the quantifier).
+PARTIAL: it holds exactly when nothing is inherited by every piece — no labile mods, no unknown-position mods, no static
+rule with a terminal target — and (for this proof) no interval mods. -/
+theorem mass_conservation_partial (w : Char × List Mod → Rat) (m : Mod → Rat) (t : Option (List Mod) → Rat) (h : Rat)
+    (a : Annotation) (ends : List Nat) (hne : ends ≠ [])
+    (hinc : Increasing 0 ends a.seq.length) (hlast : lastOf 0 ends = a.seq.length) (hiv : a.intervals = none)
+    (hlab : a.labile = none) (hunk : a.unknown = none) (hst : t a.static = 0) :
+    ((piecesFrom a 0 ends).map (amass w m t h)).sum = amass w m t h a + times (ends.length - 1) h := by
+  rw [mass_partition_exact w m t h a ends hne hinc hlast hiv]
+  have : inherited m t a = 0 := by
+    unfold inherited; rw [hlab, hunk, hst]; simp [modSum]; grind
+  rw [this, times_zero_add]
+
+/-- witness of KF-C07-labile-inherited: `{100}PEPKTIDE` cut after K -/
+def labileWitness : Annotation :=
+  { seq := ['P', 'E', 'P', 'K', 'T', 'I', 'D', 'E'], labile := some [⟨.int 100, 1⟩] }
+
+def intVal (md : Mod) : Rat := match md.val with
+  | .int i => (i : Rat) * (md.mult : Rat)
+  | _ => 0
+
+/-- the full statement is FALSE on the current code: with residue weight 1, water 18 and the labile mod worth 100 the two
+tryptic pieces of `{100}PEPKTIDE` weigh 244, the protein plus one water 144 (replayed on /repo by corpus/C07) -/
+theorem mass_conservation_full_false_on_current_code :
+    ((piecesFrom labileWitness 0 [4, 8]).map (amass (fun _ => 1) intVal (fun _ => 0) 18)).sum = 244 ∧
+    amass (fun _ => 1) intVal (fun _ => 0) 18 labileWitness + times 1 18 = 144 := by
+  decide +kernel
+
+/-! ## non-vacuity -/
+
+def demo : Annotation :=
+  { seq := ['P', 'E', 'P', 'K', 'T', 'I', 'D', 'E'],
+    nterm := some [⟨.str ['A', 'c'], 1⟩], cterm := some [⟨.str ['A', 'm'], 1⟩],
+    static := some [⟨.str ['[', 'X', ']', '@', 'C'], 1⟩],
+    internal := some [(0, [⟨.str ['P', 'h'], 1⟩]), (5, [⟨.int 16, 2⟩])] }
+
+example : Increasing 0 [4, 8] demo.seq.length ∧ lastOf 0 [4, 8] = demo.seq.length ∧ demo.intervals = none ∧
+    demo.labile = none ∧ demo.unknown = none := by simp [Increasing, lastOf, demo]
+example : (piecesFrom demo 0 [4, 8]).map residues =
+    [[('P', [⟨.str ['P', 'h'], 1⟩]), ('E', []), ('P', []), ('K', [])],
+     [('T', []), ('I', [⟨.int 16, 2⟩]), ('D', []), ('E', [])]] := by decide
+example : (piecesFrom demo 0 [4, 8]).map (fun p => (p.nterm.isSome, p.cterm.isSome)) = [(true, false), (false, true)] := by
+  decide
+example : hasMods (plain ['P', 'E', 'P']) = false := by decide
 
 end Pept.Reorder.C07
